@@ -98,7 +98,7 @@ func checkEvictions(label string, pre, post []mSnap, want int) {
 	vrt.Assert(label+".one-eviction-per-stored-message", gone == want)
 }
 
-// verif:harness props=C12,C02 tier=quick native=yes weight=35 shards=4 tshards=8
+// verif:harness props=C12,C02 tier=quick native=yes weight=35
 // verif:bounds N=2 pre-existing messages (thorough 3) in any state; max_depth in 0(unlimited)..N+1, reject|drop_oldest, delivered-retention on/off, memory-pressure item limit in {default,1,2}; new id from {existing ids, fresh id, empty (generated)}; precondition active<=max_depth (property's exclusion); pruning disabled here (see VerifC02Prune)
 func VerifC12Enqueue() {
 	n := 2
@@ -213,7 +213,7 @@ func VerifC12Enqueue() {
 	vrt.Observe("err", err)
 }
 
-// verif:harness props=C12,C15 tprops=C02 tier=quick native=yes weight=70 shards=6 tshards=12
+// verif:harness props=C12,C15 tprops=C02 tier=quick native=yes weight=70
 // verif:bounds N=2 pre-existing messages (thorough 3); batch of 1..2 envelopes (thorough ..3) with ids from {existing, fresh a, fresh b, empty}, so duplicates inside the batch and against the queue occur; same limits space as VerifC12Enqueue
 func VerifC12EnqueueBatch() {
 	n, kmax := 2, 2
